@@ -35,12 +35,24 @@ CONSTANTS P,          \* number of abstract positions
           BoxPos,     \* BoxPos[x] positions whose voxel lies inside box x (generated)
           BoxBlocks,  \* BoxBlocks[x] blocks intersecting box x (generated)
           ROIBlocks,  \* blocks of the region of interest (generated)
-          MaxL        \* largest label that can be allocated within MaxOps
+          MaxL,       \* largest label that can be allocated within MaxOps
+          Classes,    \* operation classes in the alphabet (subset of AllClasses; generated)
+          DeepClasses, \* classes the exhaustive emission continues with below its first layer
+          FreshBlocks,    \* blocks of the label volume that are not ingested when the history starts
+          ReloadVariants  \* variants of POST reload a block-level ingest may be followed by
 
-VARIABLES elems, tagIdx, labelIdx, cnt
+VARIABLES elems, tagIdx, labelIdx, cnt,
+          fresh       \* blocks of the label volume never written so far
 
-avars == <<elems, tagIdx, labelIdx, cnt>>
-allvars == <<sv, mp, nxt, depth, last, elems, tagIdx, labelIdx, cnt>>
+avars == <<elems, tagIdx, labelIdx, cnt, fresh>>
+allvars == <<sv, mp, nxt, depth, last, elems, tagIdx, labelIdx, cnt, fresh>>
+
+AllClasses == {"post1", "pair", "retag", "post3", "delete", "move", "moveonto",
+               "merge", "cleave", "splitsv", "split", "renumber",
+               "overwrite", "overwrite0", "overwritesv", "ingest",
+               "blocks", "blocksall", "restart", "postlabels"}
+ASSUME Classes \subseteq AllClasses /\ DeepClasses \subseteq Classes
+ASSUME ReloadVariants \subseteq {"plain", "check", "lowmem"} /\ ReloadVariants # {}
 
 Positions == 1..P
 Tags == 1..NT
@@ -73,9 +85,12 @@ ByBody(l) == {p \in Present : BodyAt(p) = l}
 InBox(x) == Present \cap BoxPos[x]
 InBlocksOfBox(x) == {p \in Present : PosBlock[p] \in BoxBlocks[x]}
 InROI == {p \in Present : PosBlock[p] \in ROIBlocks}
-CountIdx(l, name) ==
-    IF name = "AllSyn" THEN Cardinality({p \in ByBody(l) : Syn(elems[p].kind)})
-    ELSE Cardinality({p \in ByBody(l) : KindSeq[elems[p].kind] = name})
+CountIn(S, name) ==
+    IF name = "AllSyn" THEN Cardinality({p \in S : Syn(elems[p].kind)})
+    ELSE Cardinality({p \in S : KindSeq[elems[p].kind] = name})
+CountIdx(l, name) == CountIn(ByBody(l), name)
+\* the counts of a labelsz instance restricted to the region of interest
+CountIdxROI(l, name) == CountIn(ByBody(l) \cap InROI, name)
 
 \* indexes rebuilt from an element function under the current label state (reload)
 TagIdxOf(e) == UNION {{<<t, NRof(p, e[p])>> : t \in e[p].tags} : p \in DOMAIN e}
@@ -101,6 +116,7 @@ AInit ==
     /\ tagIdx = TagIdxOf(InitElems)
     /\ labelIdx = LabelIdxOf(InitElems)
     /\ cnt = CntOf(InitElems)
+    /\ fresh = FreshBlocks
 
 (***************************************************************************)
 (* POST elements: every posted element replaces the element at its         *)
@@ -116,7 +132,7 @@ Post(E) ==
        /\ cnt' = [l \in 1..MaxL |-> [k \in Kinds |->
                     cnt[l][k] + Cardinality({p \in D : BodyAt(p) = l /\ E[p].kind = k})
                               - Cardinality({p \in D \cap Present : BodyAt(p) = l /\ elems[p].kind = k})]]
-       /\ UNCHANGED <<sv, mp, nxt>>
+       /\ UNCHANGED <<sv, mp, nxt, fresh>>
        /\ last' = [op |-> "post", elems |-> ElemSeq(E)]
 
 \* one element: new, or overwriting (kind and tag changes; relationships kept)
@@ -152,7 +168,7 @@ Delete(p) ==
     /\ tagIdx' = DropPos(tagIdx, {p})
     /\ labelIdx' = DropPos(labelIdx, {p})
     /\ cnt' = IF BodyAt(p) = 0 THEN cnt ELSE [cnt EXCEPT ![BodyAt(p)][elems[p].kind] = @ - 1]
-    /\ UNCHANGED <<sv, mp, nxt>>
+    /\ UNCHANGED <<sv, mp, nxt, fresh>>
     /\ last' = [op |-> "delete", pos |-> p]
 
 (***************************************************************************)
@@ -170,7 +186,7 @@ Move(p, q) ==
     /\ cnt' = LET k == elems[p].kind
                   c1 == IF BodyAt(p) = 0 THEN cnt ELSE [cnt EXCEPT ![BodyAt(p)][k] = @ - 1]
               IN IF BodyAt(q) = 0 THEN c1 ELSE [c1 EXCEPT ![BodyAt(q)][k] = @ + 1]
-    /\ UNCHANGED <<sv, mp, nxt>>
+    /\ UNCHANGED <<sv, mp, nxt, fresh>>
     /\ last' = [op |-> "move", from |-> p, to |-> q]
 
 (***************************************************************************)
@@ -183,7 +199,7 @@ AMerge(T, M) ==
     /\ cnt' = [l \in 1..MaxL |-> [k \in Kinds |->
                  IF l = T THEN cnt[T][k] + SumOver(M, [m \in M |-> cnt[m][k]])
                  ELSE IF l \in M THEN 0 ELSE cnt[l][k]]]
-    /\ UNCHANGED <<elems, tagIdx>>
+    /\ UNCHANGED <<elems, tagIdx, fresh>>
 
 ACleave(B, C) ==
     LET moved == {x \in labelIdx : x[1] = B /\ sv[PosRegion[x[2].pos]] \in C}
@@ -193,19 +209,70 @@ ACleave(B, C) ==
                     IF l = B THEN cnt[B][k] - Cardinality({x \in moved : x[2].kind = k})
                     ELSE IF l = nxt + 1 THEN Cardinality({x \in moved : x[2].kind = k})
                     ELSE cnt[l][k]]]
-       /\ UNCHANGED <<elems, tagIdx>>
+       /\ UNCHANGED <<elems, tagIdx, fresh>>
 
-\* POST raw?mutate=true writing a new label x over the regions WR (a voxel edit): the elements
-\* sitting on the rewritten voxels leave their body (or the background) for the new body x
+\* the body a voxel gets when label x is written into it (0 background; a supervoxel that is
+\* present keeps its body; a label new to the volume is its own body)
+BodyOfWritten(x) == IF x = 0 THEN 0 ELSE IF x \in DOMAIN mp THEN mp[x] ELSE x
+BlocksOfRegions(WR) == {b \in Blocks : \E r \in WR : NVox[r][b] > 0}
+RegionsIn(b) == {r \in Regions : NVox[r][b] > 0}
+WholeBlock(b) == \A r \in RegionsIn(b) : \A b2 \in Blocks \ {b} : NVox[r][b2] = 0
+Bump(c, l, k, d) == IF l = 0 THEN c ELSE [c EXCEPT ![l][k] = @ + d]
+
+\* POST raw?mutate=true writing label x over the regions WR (a voxel edit): x is a label new to
+\* the volume, 0 (erase), or a supervoxel already present (own body or mapped to another one).
+\* The elements sitting on the rewritten voxels leave their body for the body of x.  Every block
+\* holding one of the regions is re-posted; a block never written before is thereby ingested.
 AOverwrite(WR, x) ==
     LET moved == {p \in Present : PosRegion[p] \in WR}
+        nb == BodyOfWritten(x)
     IN /\ Overwrite(WR, x)
-       /\ x \notin DOMAIN mp /\ x <= MaxL
-       /\ labelIdx' = DropPos(labelIdx, moved) \cup {<<x, NRof(p, elems[p])>> : p \in moved}
+       /\ x <= MaxL
+       /\ labelIdx' = DropPos(labelIdx, moved) \cup
+                      (IF nb = 0 THEN {} ELSE {<<nb, NRof(p, elems[p])>> : p \in moved})
        /\ cnt' = [l \in 1..MaxL |-> [k \in Kinds |->
-                    IF l = x THEN Cardinality({p \in moved : elems[p].kind = k})
-                    ELSE cnt[l][k] - Cardinality({p \in moved : BodyAt(p) = l /\ elems[p].kind = k})]]
+                    cnt[l][k] - Cardinality({p \in moved : BodyAt(p) = l /\ elems[p].kind = k})
+                              + (IF l = nb THEN Cardinality({p \in moved : elems[p].kind = k}) ELSE 0)]]
+       /\ fresh' = fresh \ BlocksOfRegions(WR)
        /\ UNCHANGED <<elems, tagIdx>>
+
+\* POST raw (no mutate) / POST blocks of a block never written before, all of it with label x:
+\* the elements already stored in that block enter the list of the body of x
+AIngest(b, x, via) ==
+    LET WR == RegionsIn(b)
+        nb == BodyOfWritten(x)
+        here == {p \in Present : PosBlock[p] = b}
+    IN /\ b \in fresh /\ x > 0 /\ x <= MaxL
+       /\ sv' = [r \in Regions |-> IF r \in WR THEN x ELSE sv[r]]
+       /\ mp' = [s \in ({sv'[r] : r \in Regions} \ {0}) |-> IF s \in DOMAIN mp THEN mp[s] ELSE s]
+       /\ nxt' = IF x > nxt THEN x ELSE nxt
+       /\ labelIdx' = labelIdx \cup {<<nb, NRof(p, elems[p])>> : p \in here}
+       /\ cnt' = [l \in 1..MaxL |-> [k \in Kinds |->
+                    cnt[l][k] + (IF l = nb THEN Cardinality({p \in here : elems[p].kind = k}) ELSE 0)]]
+       /\ fresh' = fresh \ {b}
+       /\ UNCHANGED <<elems, tagIdx>>
+       /\ last' = [op |-> "ingest", block |-> b, label |-> x, via |-> via]
+
+\* POST split/<B>: the elements on the split voxels move to the new body
+ASplit(B, S) ==
+    LET moved == {x \in labelIdx : x[1] = B /\ PosRegion[x[2].pos] \in S}
+    IN /\ Split(B, S)
+       /\ nxt + 1 <= MaxL
+       /\ labelIdx' = (labelIdx \ moved) \cup {<<nxt + 1, x[2]>> : x \in moved}
+       /\ cnt' = [l \in 1..MaxL |-> [k \in Kinds |->
+                    IF l = B THEN cnt[B][k] - Cardinality({x \in moved : x[2].kind = k})
+                    ELSE IF l = nxt + 1 THEN Cardinality({x \in moved : x[2].kind = k})
+                    ELSE cnt[l][k]]]
+       /\ UNCHANGED <<elems, tagIdx, fresh>>
+
+\* POST renumber: the elements of the body follow it to its new label
+ARenumber(old, new) ==
+    /\ Renumber(old, new)
+    /\ new <= MaxL
+    /\ labelIdx' = {IF x[1] = old THEN <<new, x[2]>> ELSE x : x \in labelIdx}
+    /\ cnt' = [l \in 1..MaxL |-> [k \in Kinds |->
+                 IF l = new THEN cnt[old][k] ELSE IF l = old THEN 0 ELSE cnt[l][k]]]
+    /\ UNCHANGED <<elems, tagIdx, fresh>>
 
 \* a supervoxel split moves no voxel to another body
 ASplitSV(s, S) == SplitSV(s, S) /\ UNCHANGED avars
@@ -215,7 +282,7 @@ ASplitSV(s, S) == SplitSV(s, S) /\ UNCHANGED avars
 (* changed, removed, added) followed by POST reload of the annotation and  *)
 (* of the labelsz instance: all copies are rebuilt from the elements       *)
 (***************************************************************************)
-BlocksReload(b, Keep, Chg, New) ==
+BlocksReload(b, Keep, Chg, New, variant) ==
     LET InB == {p \in Positions : PosBlock[p] = b}
         Removed == (Present \cap InB) \ (Keep \cup Chg)
         rec(p) == IF p \in Keep THEN elems[p]
@@ -230,25 +297,93 @@ BlocksReload(b, Keep, Chg, New) ==
        /\ tagIdx' = TagIdxOf(new)
        /\ labelIdx' = LabelIdxOf(new)
        /\ cnt' = CntOf(new)
-       /\ UNCHANGED <<sv, mp, nxt>>
-       /\ last' = [op |-> "blocks", block |-> b, elems |-> ElemSeq([p \in (DOMAIN new) \cap InB |-> new[p]])]
+       /\ UNCHANGED <<sv, mp, nxt, fresh>>
+       /\ last' = [op |-> "blocks", block |-> b, variant |-> variant,
+                    elems |-> ElemSeq([p \in (DOMAIN new) \cap InB |-> new[p]])]
 
-ANext ==
+\* POST blocks carrying every block that holds elements in one request: one element is dropped (or
+\* none, drop = 0), every other one is changed; then reload
+BlocksAll(drop, variant) ==
+    LET Chg == Present \ {drop}
+        rec(p) == [kind |-> (elems[p].kind % NK) + 1, tags |-> Tags \ elems[p].tags,
+                   rels |-> elems[p].rels, prop |-> (elems[p].prop % 2) + 1]
+        new == [p \in Chg |-> rec(p)]
+    IN /\ drop \in Present \cup {0} /\ Chg # {}
+       /\ WellFormed(new)
+       /\ elems' = new
+       /\ tagIdx' = TagIdxOf(new)
+       /\ labelIdx' = LabelIdxOf(new)
+       /\ cnt' = CntOf(new)
+       /\ UNCHANGED <<sv, mp, nxt, fresh>>
+       /\ last' = [op |-> "blocksall", variant |-> variant, touched |-> SetToSeq({PosBlock[p] : p \in Present}),
+                    elems |-> ElemSeq(new)]
+
+\* POST elements with three elements (several blocks, new and existing ones mixed): an existing
+\* element changes kind and flips its tags, a new one is created; relationships are kept
+PostMany(D) ==
+    Post([x \in D |-> IF x \in Present
+                      THEN [kind |-> (elems[x].kind % NK) + 1, tags |-> Tags \ elems[x].tags,
+                            rels |-> elems[x].rels, prop |-> (elems[x].prop % 2) + 1]
+                      ELSE [kind |-> ((x - 1) % NK) + 1, tags |-> {(x % NT) + 1}, rels |-> {}, prop |-> 1]])
+
+(***************************************************************************)
+(* POST move/<p>/<q> onto an occupied position.  The interface does not     *)
+(* say what happens; two outcomes keep one element set: the request is      *)
+(* refused and nothing changes, or the occupant is replaced (it disappears  *)
+(* from every view, its partners drop their reference) by the moved one.    *)
+(***************************************************************************)
+MoveOnto(p, q, outcome) ==
+    /\ p \in Present /\ q \in Present /\ p # q
+    /\ last' = [op |-> "moveonto", from |-> p, to |-> q, outcome |-> outcome]
+    /\ UNCHANGED <<sv, mp, nxt, fresh>>
+    /\ IF outcome = "refused" THEN UNCHANGED <<elems, tagIdx, labelIdx, cnt>>
+       ELSE LET r == [elems[p] EXCEPT !.rels = {y \in @ : y[1] # q}]
+                new == [x \in Present \ {p} |->
+                          IF x = q THEN r
+                          ELSE [elems[x] EXCEPT !.rels = {IF y[1] = p THEN <<q, y[2]>> ELSE y : y \in {z \in @ : z[1] # q}}]]
+            IN /\ elems' = new
+               /\ tagIdx' = DropPos(tagIdx, {p, q}) \cup {<<t, NRof(q, r)>> : t \in r.tags}
+               /\ labelIdx' = DropPos(labelIdx, {p, q}) \cup
+                              (IF BodyAt(q) = 0 THEN {} ELSE {<<BodyAt(q), NRof(q, r)>>})
+               /\ cnt' = Bump(Bump(Bump(cnt, BodyAt(p), elems[p].kind, -1), BodyAt(q), elems[q].kind, -1),
+                               BodyAt(q), elems[p].kind, 1)
+
+\* a restart of the server: nothing observable changes (the subscriptions are rebuilt at load and
+\* must deliver the label operations that follow)
+ARestart == UNCHANGED <<sv, mp, nxt, avars>> /\ last' = [op |-> "restart"]
+
+\* POST labels with the current content of every body's list (low-level ingest of consistent
+\* data): nothing changes
+APostLabels == UNCHANGED <<sv, mp, nxt, avars>> /\ last' = [op |-> "postlabels"]
+
+ANextC(c) ==
     /\ depth < MaxOps
     /\ depth' = depth + 1
-    /\ \/ \E p \in Positions : \E k \in Kinds : \E T \in SUBSET Tags : PostOne(p, k, T)
-       \/ \E p \in Positions : \E q \in Positions : p < q /\ \E link \in BOOLEAN : PostPair(p, q, link)
-       \/ \E p \in Positions : \E q \in Positions : p < q /\ \E T \in {{}, {1}} : PostRetag(p, q, T)
-       \/ \E p \in Present : Delete(p)
-       \/ \E p \in Present : \E q \in Positions \ Present : Move(p, q)
-       \/ \E T \in Bodies : \E m \in Bodies \ {T} : AMerge(T, {m})
-       \/ \E B \in Bodies : \E C \in NonEmptyProperSubsets(SVsOf(B)) : ACleave(B, C)
-       \/ \E s \in SVs : \E S \in NonEmptyProperSubsets(RegionsOfSV(s)) : ASplitSV(s, S)
-       \/ WithOverwrite /\ \E r \in Regions : AOverwrite({r}, nxt + 7)
-       \/ \E b \in Blocks : LET ex == {p \in Present : PosBlock[p] = b}
-                                ab == {p \in Positions \ Present : PosBlock[p] = b}
+    /\ \/ c = "post1" /\ \E p \in Positions : \E k \in Kinds : \E T \in SUBSET Tags : PostOne(p, k, T)
+       \/ c = "pair" /\ \E p \in Positions : \E q \in Positions : p < q /\ \E link \in BOOLEAN : PostPair(p, q, link)
+       \/ c = "retag" /\ \E p \in Positions : \E q \in Positions : p < q /\ \E T \in {{}, {1}} : PostRetag(p, q, T)
+       \/ c = "post3" /\ \E D \in SUBSET Positions : Cardinality(D) = 3 /\ PostMany(D)
+       \/ c = "delete" /\ \E p \in Present : Delete(p)
+       \/ c = "move" /\ \E p \in Present : \E q \in Positions \ Present : Move(p, q)
+       \/ c = "moveonto" /\ \E p \in Present : \E q \in Present \ {p} : \E o \in {"refused", "replaced"} : MoveOnto(p, q, o)
+       \/ c = "merge" /\ \E T \in Bodies : \E m \in Bodies \ {T} : AMerge(T, {m})
+       \/ c = "cleave" /\ \E B \in Bodies : \E C \in NonEmptyProperSubsets(SVsOf(B)) : ACleave(B, C)
+       \/ c = "splitsv" /\ \E s \in SVs : \E S \in NonEmptyProperSubsets(RegionsOfSV(s)) : ASplitSV(s, S)
+       \/ c = "split" /\ \E B \in Bodies : \E S \in NonEmptyProperSubsets(RegionsOf(B)) : ASplit(B, S)
+       \/ c = "renumber" /\ \E old \in Bodies : ARenumber(old, nxt + 5)
+       \/ c = "overwrite" /\ \E r \in Regions : AOverwrite({r}, nxt + 7)
+       \/ c = "overwrite0" /\ \E r \in Regions : AOverwrite({r}, 0)
+       \/ c = "overwritesv" /\ \E r \in Regions : \E x \in SVs : AOverwrite({r}, x)
+       \/ c = "ingest" /\ \E b \in fresh : \E x \in {nxt + 7} \cup SVs : \E via \in {"raw", "blocks"} : AIngest(b, x, via)
+       \/ c = "blocks" /\ \E b \in Blocks : LET ex == {p \in Present : PosBlock[p] = b}
+                                                ab == {p \in Positions \ Present : PosBlock[p] = b}
                             IN \E Keep \in SUBSET ex : \E Chg \in SUBSET (ex \ Keep) : \E New \in SUBSET ab :
-                                  BlocksReload(b, Keep, Chg, New)
+                                  \E v \in ReloadVariants : BlocksReload(b, Keep, Chg, New, v)
+       \/ c = "blocksall" /\ \E drop \in Present \cup {0} : \E v \in ReloadVariants : BlocksAll(drop, v)
+       \/ c = "restart" /\ ARestart
+       \/ c = "postlabels" /\ APostLabels
+
+ANext == \E c \in Classes : ANextC(c)
 
 ASpec == AInit /\ [][ANext]_allvars
 
@@ -269,11 +404,14 @@ Inv_C13_Views ==
     /\ \A b1, b2 \in Blocks : b1 # b2 => ByBlock(b1) \cap ByBlock(b2) = {}
     /\ UNION {ByBody(l) : l \in Bodies \cup {0}} = Present
     /\ \A l \in Bodies : CountIdx(l, "AllSyn") <= Cardinality(ByBody(l))
-Inv_C13 == Inv_C13_Tags /\ Inv_C13_Labels /\ Inv_C13_Counts /\ Inv_C13_Rels /\ Inv_C13_Views
+\* a block counts as never written only as long as no voxel of it carries a label
+Inv_C13_Fresh == \A b \in fresh : WholeBlock(b) /\ \A r \in RegionsIn(b) : sv[r] = 0
+Inv_C13 == Inv_C13_Tags /\ Inv_C13_Labels /\ Inv_C13_Counts /\ Inv_C13_Rels /\ Inv_C13_Views /\ Inv_C13_Fresh
 
 \* only label operations and moves change the body of an element; only element operations change elems
-Act_C13_LabelOpsKeepElements == [][last'.op \in {"merge", "cleave", "splitsv", "overwrite"} => elems' = elems /\ tagIdx' = tagIdx]_allvars
-Act_C13_SplitKeepsBodies == [][last'.op = "splitsv" => labelIdx' = labelIdx /\ cnt' = cnt]_allvars
+Act_C13_LabelOpsKeepElements == [][last'.op \in {"merge", "cleave", "splitsv", "overwrite", "split", "renumber", "ingest", "restart", "postlabels"}
+                                      => elems' = elems /\ tagIdx' = tagIdx]_allvars
+Act_C13_SplitKeepsBodies == [][last'.op \in {"splitsv", "restart", "postlabels"} => labelIdx' = labelIdx /\ cnt' = cnt]_allvars
 
 (***************************************************************************)
 (* What the harness compares after every transition                        *)
@@ -284,6 +422,7 @@ RankSeq(S, f) ==
     ELSE LET x == CHOOSE y \in S : \A z \in S : f[y] > f[z] \/ (f[y] = f[z] /\ y <= z)
          IN <<[label |-> x, n |-> f[x]]>> \o RankSeq(S \ {x}, f)
 Ranked(name) == LET f == [l \in Bodies |-> CountIdx(l, name)] IN RankSeq({l \in Bodies : f[l] > 0}, f)
+RankedROI(name) == LET f == [l \in Bodies |-> CountIdxROI(l, name)] IN RankSeq({l \in Bodies : f[l] > 0}, f)
 AtLeast(seq, t) == SelectSeq(seq, LAMBDA r : r.n >= t)
 
 AObs ==
@@ -293,7 +432,8 @@ AObs ==
      bodies |-> [i \in 1..Cardinality(Bodies) |->
                    LET l == SetToSeq(Bodies)[i] IN
                    [label |-> l, pos |-> SetToSeq(ByBody(l)),
-                    counts |-> [j \in 1..Len(IndexNames) |-> CountIdx(l, IndexNames[j])]]],
+                    counts |-> [j \in 1..Len(IndexNames) |-> CountIdx(l, IndexNames[j])],
+                    roiCounts |-> [j \in 1..Len(IndexNames) |-> CountIdxROI(l, IndexNames[j])]]],
      ghosts |-> SetToSeq((1..nxt) \ Bodies),
      inBox |-> [x \in 1..NBox |-> SetToSeq(InBox(x))],
      blocksOfBox |-> [x \in 1..NBox |-> SetToSeq(InBlocksOfBox(x))],
@@ -301,5 +441,8 @@ AObs ==
      posBody |-> [p \in 1..P |-> BodyAt(p)],
      index |-> [j \in 1..Len(IndexNames) |->
                   [name |-> IndexNames[j], ranked |-> Ranked(IndexNames[j]),
-                   atLeast2 |-> AtLeast(Ranked(IndexNames[j]), 2)]]]
+                   atLeast2 |-> AtLeast(Ranked(IndexNames[j]), 2),
+                   roiRanked |-> RankedROI(IndexNames[j])]],
+     usedBlocks |-> SetToSeq({PosBlock[p] : p \in Present}),
+     fresh |-> SetToSeq(fresh)]
 =============================================================================
